@@ -33,8 +33,8 @@ CLAIMED["C11"] = dict(
     technique=TECH)
 CLAIMED["C08"] = dict(
     level="model_checking", design="§4 C08",
-    text="Model checking of the real encoders of six instruction sets (RISC-V, ARM A32, ARM Thumb, x86-64 subset, MIPS32, MSP430). Thumb (54 classes: 16-bit set + bl, b.w, b<c>.w, sdiv, udiv, mul), MIPS32 (37 classes) and MSP430 (41 classes x 8 source x 3 destination addressing-mode constructors, 6 pseudo-instructions) follow the same scheme with the decoders ref/thumbdec.py (ARMv7-M ARM DDI 0403E), ref/mipsdec.py (MIPS32 AFP vol. II) and ref/msp430dec.py (SLAU049/SLAU144 ch. 3). RISC-V (RV32IM+Zicsr+C) and ARM A32: every instruction class of the riscv, riscv:rvc and arm ISA objects is built with fully symbolic operands (register numbers, immediates wider than any field, shift suffix and amount, register lists, label distance through the real relocation; rendered pseudo-instructions such as li are executed as a sequence) and the real encode() output must decode, via manual-derived decoders (ref/rv32.py, ref/arm32.py), to the printed mnemonic incl. condition suffix and exactly the printed operands, for all operands in the manuals' documented ranges. x86_64: the integer operand-encoding layer (REX, ModRM, SIB, disp8/disp32, immediates) of every integer instruction class x every operand constructor it accepts, with all registers, displacements and immediates symbolic, decoded by an SDM-derived decoder (ref/x86dec.py).",
-    note="Trusted: z3, the six reference decoders (self-validated on every run: table disjointness, the repo's own assembler byte strings, solver proof that independent field-slicing variants agree, llvm-mc / GNU objdump cross-checks on random words where installed - never the deciding step), the proxy engine. Known findings: RVC 3-bit register fields aliasing x4..x7, ignored rs operands, reserved encodings; x86 AH..BH with REX. Outside: the other nine ISAs, Thumb, VFP/NEON/coprocessor, SSE2/x87, F/D extensions, out-of-range operands (C10), UNPREDICTABLE combinations, hi/lo relocated fields (C10/C11).",
+    text="Model checking of the real encoders of eleven instruction sets (RISC-V, ARM A32, ARM Thumb, x86-64 subset, MIPS32, MSP430, AVR, OpenRISC 1000, MicroBlaze, M68000, Xtensa). AVR (55 classes), or1k (57 classes x immediate constructors), MicroBlaze (107 classes + 9 label macros), m68k (42 classes x every <ea> constructor) and Xtensa (55 classes) follow the same scheme with decoders ref/avrdec.py, ref/or1kdec.py, ref/microblazedec.py, ref/m68kdec.py, ref/xtensadec.py written from the respective architecture manuals. Thumb (54 classes: 16-bit set + bl, b.w, b<c>.w, sdiv, udiv, mul), MIPS32 (37 classes) and MSP430 (41 classes x 8 source x 3 destination addressing-mode constructors, 6 pseudo-instructions) follow the same scheme with the decoders ref/thumbdec.py (ARMv7-M ARM DDI 0403E), ref/mipsdec.py (MIPS32 AFP vol. II) and ref/msp430dec.py (SLAU049/SLAU144 ch. 3). RISC-V (RV32IM+Zicsr+C) and ARM A32: every instruction class of the riscv, riscv:rvc and arm ISA objects is built with fully symbolic operands (register numbers, immediates wider than any field, shift suffix and amount, register lists, label distance through the real relocation; rendered pseudo-instructions such as li are executed as a sequence) and the real encode() output must decode, via manual-derived decoders (ref/rv32.py, ref/arm32.py), to the printed mnemonic incl. condition suffix and exactly the printed operands, for all operands in the manuals' documented ranges. x86_64: the integer operand-encoding layer (REX, ModRM, SIB, disp8/disp32, immediates) of every integer instruction class x every operand constructor it accepts, with all registers, displacements and immediates symbolic, decoded by an SDM-derived decoder (ref/x86dec.py).",
+    note="Trusted: z3, the eleven reference decoders (self-validated on every run: table disjointness, the repo's own assembler byte strings, solver proof that independent field-slicing variants agree, llvm-mc / GNU objdump cross-checks on random words where installed - never the deciding step), the proxy engine. Known findings: RVC 3-bit register fields aliasing x4..x7, ignored rs operands, reserved encodings; x86 AH..BH with REX. Outside: the other nine ISAs, Thumb, VFP/NEON/coprocessor, SSE2/x87, F/D extensions, out-of-range operands (C10), UNPREDICTABLE combinations, hi/lo relocated fields (C10/C11).",
     technique=TECH)
 CLAIMED["C07"] = dict(
     level="model_checking", design="§4 C07",
